@@ -77,6 +77,58 @@ def module_source(recs):
     return "\n".join(src)
 
 
+def leaf_paths(t, path="x"):
+    """access expressions of the leaves of a value of type t, in declaration / element order"""
+    if t["k"] == "leaf":
+        return [(path, t["w"])]
+    if t["k"] == "arr":
+        out = []
+        for i in range(t["n"]):
+            out += leaf_paths(t["el"], f"{path}[{i}]")
+        return out
+    out = []
+    for nm, ft in zip(t["names"], t["fields"]):
+        out += leaf_paths(ft, f"{path}.{nm}")
+    return out
+
+
+def hw_module(types, recs, tier):
+    """wrapper entities for the emitted-logic part: from_bits, every leaf, to_bits"""
+    def ann(t):
+        return t["py"] if t["k"] == "leaf" else f"std.Array[{ann(t['el'])}, {t['n']}]" if t["k"] == "arr" else t["cls"]
+
+    def width(t):
+        return t["w"] if t["k"] == "leaf" else t["n"] * width(t["el"]) if t["k"] == "arr" else sum(width(f) for f in t["fields"])
+
+    src = [module_source(recs).replace("from cohdl import Bit, BitVector, Unsigned, Signed", "from cohdl import Bit, BitVector, Unsigned, Signed, Port"), ""]
+    ents = []
+    maxw = 6 if tier == "quick" else 8
+    chosen = [t for t in types if width(t) <= maxw]
+    if tier == "quick":
+        # every leaf kind, every array, and a slice of the records
+        chosen = [t for i, t in enumerate(chosen) if t["k"] != "rec" or i % 3 == 0]
+    for i, t in enumerate(chosen):
+        n = width(t)
+        name = f"E17H_{i:03d}"
+        lp = leaf_paths(t)
+        src.append(f"class {name}(cohdl.Entity):")
+        src.append(f"    b = Port.input(BitVector[{n}])")
+        src.append(f"    back = Port.output(BitVector[{n}])")
+        for j, (_, w) in enumerate(lp):
+            src.append(f"    l{j} = Port.output(BitVector[{w}])")
+        src.append("")
+        src.append("    def architecture(self):")
+        src.append("        @std.concurrent")
+        src.append("        def logic():")
+        src.append(f"            x = std.from_bits[{ann(t)}](self.b)")
+        src.append("            self.back <<= std.to_bits(x)")
+        for j, (path, _) in enumerate(lp):
+            src.append(f"            self.l{j} <<= std.to_bits({path})")
+        src.append("")
+        ents.append((name, t, len(lp)))
+    return "\n".join(src) + "\n", ents
+
+
 def strip(t):
     """the type expression as the specification sees it"""
     if t["k"] == "leaf":
@@ -125,7 +177,40 @@ def run(tier):
                 c = sh[i - 1]
                 V.violation(f"{verdict}:{c['shape']}|b={c['b']} leaves={c['leaves']} back={c['back']} built={c['built']} cnt={c['cnt']}",
                             {"clause": verdict, "case": c})
-    cov = {"evaluations": checked, "distinct_nontrivial": len({c["shape"] for c in judged}),
+        # ---- emitted logic: the same layout in the compiled wrappers, all input patterns (MC_SerialHw)
+        hw_src, hw_ents = hw_module(types, recs, tier)
+        mods = [{"name": "gc17hw", "source": hw_src, "entities": [n for n, _, _ in hw_ents]}]
+        obs = vlib.compile_modules(mods, scratch)
+        hrecs, hw_rejected = [], 0
+        shape_of = {}
+        for name, t, nleaves in hw_ents:
+            ob = obs.get(name)
+            shape_of[name] = shape(t)
+            if ob is None or ob["outcome"] == "crash":
+                V.machinery_error(f"hw wrapper {name} ({shape(t)}): {ob['error']['msg'] if ob else 'no observation'}")
+                continue
+            if ob["outcome"] != "accepted":
+                hw_rejected += 1
+                V.violation(f"hw-rejected:{shape(t)}|{ob['error']['cls']}: {ob['error']['msg'][:140]}", {"clause": "Total", "type": t, "error": ob["error"]})
+                continue
+            ob = vlib.read_obs(ob)
+            if ob["reader"] != "ok":
+                V.machinery_error(f"reader: {name} ({shape(t)}): {ob.get('reader_msg')}")
+                continue
+            hrecs.append({"id": name, "ast": ob["ast"], "top": name.lower(), "t": strip(t), "n": nleaves})
+        hres = vlib.run_tlc_shards("MC_SerialHw.tla", "MC_SerialHw.cfg", [{"designs": s} for s in vlib.shard(hrecs, vlib.NCPU)], scratch,
+                                   timeout=1500 if tier == "quick" else 6000) if hrecs else []
+        hw_patterns = 0
+        for r in hres:
+            pr = r["parsed"]
+            if r["timeout"] or pr["errors"] or "patterns" not in pr["stat"]:
+                V.machinery_error("MC_SerialHw: " + " / ".join(pr["errors"][:3]) + r["out"][-600:])
+                continue
+            hw_patterns += pr["stat"]["patterns"][0]
+            for name, b, verdict in pr["viol"]:
+                V.violation(f"hw-{verdict}:{shape_of[name]}|b={b}", {"clause": verdict, "design": name, "b": b, "vhdl": obs[name]["vhdl"]})
+    cov = {"evaluations": checked + hw_patterns, "hw_wrappers": len(hrecs), "hw_patterns": hw_patterns, "hw_rejected": hw_rejected,
+           "distinct_nontrivial": len({c["shape"] for c in judged}),
            "rule": "type compositions (Bit, bool, BitVector/Unsigned/Signed, SFixed/UFixed leaves; std.Array; Record incl. nested and "
                    "inherited) up to nesting 2 with total width <= 8 x ALL bit patterns: count_bits, to_bits(from_bits[T](b)) == b, the "
                    "fields read from the real object against the documented layout, and to_bits of the object rebuilt field by field; "
@@ -134,5 +219,6 @@ def run(tier):
            "type_shapes": len(types), "exhaustive": True}
     rc = V.finish()
     vlib.write_evidence("C17", tier, "model_checking", cov, time.time() - t0, len(V.new),
-                        ["spec/Serial.tla transcribes the layout sentence of C17", "harness/pyobs_c17.py reads fields through the public API", "TLC"])
+                        ["spec/Serial.tla transcribes the layout sentence of C17", "harness/pyobs_c17.py reads fields through the public API",
+                         "emitted wrappers are read by harness/vhdl_reader.py and interpreted by spec/VhdlSem.tla", "TLC"])
     return rc
